@@ -541,3 +541,45 @@ pub fn f4w(kinds: &'static [usize], label: &str) -> Family {
         }),
     }
 }
+
+/// FS2: every distinct position (Silver to move) reachable by ONE complete Gold turn from the first `k` opening seeds
+/// of seeds/handmade.txt, each then explored for one full turn as a root of its own (two turns deep from the opening
+/// without holding both turns' state sets in memory at once).
+pub fn fs2(dir: &std::path::Path, k: usize) -> Family {
+    use arimaa_engine_step::*;
+    let first = fs_first(dir, k);
+    let mut boards: Vec<rm::Board> = vec![];
+    let mut seen_pos: std::collections::HashSet<[u64; 8]> = std::collections::HashSet::new();
+    for idx in 0..first.n {
+        let (b, gold) = (first.decode)(idx).unwrap();
+        let root = crate::glue::state_from_board(&b, gold, 2);
+        let mut seen: std::collections::HashSet<([u64; 8], usize, u32)> = std::collections::HashSet::new();
+        let mut stack = vec![root];
+        while let Some(s) = stack.pop() {
+            let key = (crate::glue::raw(s.piece_board()), s.current_step(), crate::glue::pps_code(s.unwrap_play_phase().push_pull_state()));
+            if !seen.insert(key) {
+                continue;
+            }
+            for a in s.valid_actions() {
+                let t = s.take_action(&a);
+                if t.is_p1_turn_to_move() != s.is_p1_turn_to_move() {
+                    if seen_pos.insert(crate::glue::raw(t.piece_board())) {
+                        if let Ok(nb) = crate::glue::board_from_engine(t.piece_board()) {
+                            boards.push(nb);
+                        }
+                    }
+                } else {
+                    stack.push(t);
+                }
+            }
+        }
+    }
+    let n = boards.len() as u64;
+    Family {
+        name: format!("FS2 (every one of the {} distinct positions reachable by one complete Gold turn from the {} opening seeds, Silver to move, each explored for one full turn)", n, first.n),
+        n,
+        how: 0,
+        setups: None,
+        decode: Box::new(move |idx| Some((boards[idx as usize], false))),
+    }
+}
